@@ -7,10 +7,13 @@ import (
 	"fmt"
 	"math/big"
 	"math/rand"
+	"os"
+	"strings"
 	"testing"
 
 	"github.com/dominant-strategies/go-quai/common"
 	"github.com/dominant-strategies/go-quai/core/types"
+	"github.com/dominant-strategies/go-quai/core/vm"
 	"github.com/dominant-strategies/go-quai/params"
 
 	"verif/internal/hnet"
@@ -83,19 +86,19 @@ func scenarios(m *mon.M, r *rand.Rand) []scenario {
 }
 
 type netState struct {
-	x        *run
-	sc       scenario
-	minerQ   common.Address // Quai coinbase (never funded, never sends)
-	minerQi  *hnet.QiKey
-	convTo   common.Address // receives Qi->Quai conversions only
-	claimTo  common.Address // receives claimed Quai lockups only
-	claimQi  *hnet.QiKey
-	owner    *ownerContract
-	other    *ownerContract // a second contract: not the owner of any record
-	funded   []*hnet.QuaiKey
-	sharePay []common.Address // coinbases used by crafted shares
-	pending  []*types.WorkObjectHeader
-	resent   map[common.Hash]bool
+	x          *run
+	sc         scenario
+	minerQ     common.Address // Quai coinbase (never funded, never sends)
+	minerQi    *hnet.QiKey
+	convTo     common.Address // receives Qi->Quai conversions only
+	claimTo    common.Address // receives claimed Quai lockups only
+	claimQi    *hnet.QiKey
+	owner      *ownerContract
+	other      *ownerContract // a second contract: not the owner of any record
+	funded     []*hnet.QuaiKey
+	sharePay   []common.Address // coinbases used by crafted shares
+	pending    []*types.WorkObjectHeader
+	resent     map[common.Hash]bool
 	earlyTried map[string]bool
 	lateSpent  map[string]int
 	claimPlan  map[string]int // record key -> stage of the claim script
@@ -132,6 +135,10 @@ func runScenario(m *mon.M, r *rand.Rand, sc scenario) {
 		return
 	}
 	defer n.Stop()
+	if la := vm.LockupContractAddresses[[2]byte{hnet.ZoneLoc[0], hnet.ZoneLoc[1]}]; !la.Equal(lockupPrecompile()) {
+		m.Inconclusive(fmt.Sprintf("lockup precompile address is %s, the check assumed %s", la.Hex(), lockupPrecompile().Hex()))
+		return
+	}
 	x := newRun(m, sc.name, n, w, r)
 	ns.x = x
 	x.watch[ia(ns.minerQ)] = "miner"
@@ -260,6 +267,9 @@ func TestC13(t *testing.T) {
 		"single live slice prime/region-0/zone-0-0")
 	r := m.Rand("nets")
 	for _, sc := range scenarios(m, r) {
+		if only := os.Getenv("C13_ONLY"); only != "" && !strings.Contains(sc.name, only) { // development aid, never set by registered commands
+			continue
+		}
 		runScenario(m, r, sc)
 	}
 	m.Floor(int64(m.N(1500, 20000)), 30)
